@@ -459,6 +459,13 @@ static void run_campaigns(Ctx& ctx) {
   }
 }
 
+static std::string pretty_case(const Case& c) {
+  if (c.campaign != "HISTX" && c.campaign != "HISTR" && c.campaign != "FUZZ") return "";
+  std::string o;
+  for (size_t i = 0; i + 4 <= c.data.size() && i < 4 * 14; i += 4) { char b[64]; snprintf(b, sizeof b, "%s%s(%u,%u,%u)", i ? " " : "", hist::op_name(c.data[i] % hist::H_COUNT), c.data[i + 1], c.data[i + 2], c.data[i + 3]); o += b; }
+  if (c.data.size() > 4 * 14) o += " ... (" + std::to_string(c.data.size() / 4) + " ops)";
+  return o;
+}
 static void driver_init() {
   g_devnull = fopen("/dev/null", "w");
   ar::g.a[0].init((size_t)64 << 20); ar::g.a[1].init((size_t)1 << 20);
@@ -470,7 +477,7 @@ static const char* kDriverName = "drv_hist";
 #ifndef VH_FUZZ_TARGET
 int main(int argc, char** argv) {
   driver_init();
-  vh::Driver drv{kDriverName, run_campaigns, run_case};
+  vh::Driver drv{kDriverName, run_campaigns, run_case, pretty_case};
   return vh::driver_main(argc, argv, drv);
 }
 #endif
